@@ -38,6 +38,7 @@ import os
 from engine import orders as O
 from engine import plumbing as PL
 from engine import poly as P
+from engine import walk2d as K
 from engine import witness as W
 from engine import sx
 from engine import terms as T
@@ -769,6 +770,202 @@ def rule_iter(rep, db, cfg):
         guarded(rep, "ITER", "range::size|" + type_tag(fn)[:30], fn, f)
 
 
+# --------------------------------------------------------------------------------------------
+# SPIRAL: the iterator's state machine, summarised by abstract execution over symbolic states, and the geometry of the walk
+
+DIAGONALS = [(-1, -1), (-1, 1), (1, 1), (1, -1)]
+AXES = {(0, -1), (-1, 0), (0, 1), (1, 0)}
+
+
+def cvec(p):
+    """integer pair of a constant position, else None"""
+    if not K.is_vec(p):
+        return None
+    out = []
+    for c in p[1]:
+        if set(c.t) - {()}:
+            return None
+        out.append(c.t.get((), 0))
+    return tuple(out)
+
+
+def vsub(a, b):
+    return K.vec(a[1][0] - b[1][0], a[1][1] - b[1][1])
+
+
+def rule_spiral(rep, db):
+    rep.rule("SPIRAL", "spiral iterator: the state machine walks ring d along the four edges of the diamond of radius d, every point once, "
+                       "rings in increasing order; begin / end / equal / dereference fit that walk", floor=1)
+    incs = db.fns("fcppt::container::grid::spiral_iterator::increment")
+    if not incs:
+        rep.broken("C18 SPIRAL: spiral_iterator::increment not instantiated")
+        return
+    for inc in incs[:1]:
+        u = inc["_unit"]
+        key = "spiral|" + type_tag(inc)[:40]
+
+        def member(name, kind=None):
+            for f in u.all_functions:
+                if F.fn_name(f) == "fcppt::container::grid::" + name and (kind is None or f.get("kind") == kind) and f.get("body") is not None:
+                    return f
+            raise Broken("no body of %s" % name)
+
+        def analyse():
+            ctor = member("spiral_iterator::spiral_iterator", "ctor")
+            if len(ctor["params"]) != 2:
+                raise Broken("constructor with %d parameters" % len(ctor["params"]))
+            SX, SY, M = Poly.atom(("sx",)), Poly.atom(("sy",)), Poly.atom(("max",))
+            m0 = K.Machine(u, {}, params={ctor["params"][0]["id"]: K.vec(SX, SY), ctor["params"][1]["id"]: M})
+            init = {}
+            for i in ctor.get("inits", []):
+                if i.get("field") and i.get("init") is not None:
+                    init[i["field"]] = m0.val(i["init"])
+            vecs = [f for f, v in init.items() if K.is_vec(v)]
+            scal = [f for f, v in init.items() if not K.is_vec(v)]
+            dirs = [f for f in vecs if cvec(init[f]) is not None]
+            poss = [f for f in vecs if cvec(init[f]) is None]
+            if len(dirs) != 1 or len(poss) != 1:
+                raise Broken("expected one constant direction field and one position field, found %s / %s" % (dirs, poss))
+            DIR, POS = dirs[0], poss[0]
+            if init[POS] != K.vec(SX, SY):
+                return "the iterator does not start at the given position"
+            # dereference yields the position field
+            deref = member("spiral_iterator::dereference")
+            sym = {f: Poly.atom((f,)) for f in scal}
+            base = dict(sym)
+            base[POS] = K.vec(Poly.atom(("px",)), Poly.atom(("py",)))
+            base[DIR] = K.vec(Poly.const(-1), Poly.const(1))
+            if K.Machine(u, base).run(deref.get("body")) != base[POS]:
+                return "dereference does not yield the current position"
+            # summaries of increment over symbolic states: per direction, with the undecided counter comparison assumed equal / different
+            side, corner, asked = {}, {}, set()
+            for D in DIAGONALS:
+                for eqv in (True, False):
+                    st = dict(base)
+                    st[DIR] = K.vec(Poly.const(D[0]), Poly.const(D[1]))
+
+                    def assume(diff, eqv=eqv):
+                        asked.add(frozenset(diff.t.items()))
+                        return eqv
+                    mch = K.Machine(u, st, assume=assume)
+                    mch.run(inc.get("body"))
+                    (corner if eqv else side)[D] = mch.state
+            if len(asked) != 1:
+                raise Broken("increment decides %d different comparisons of counters" % len(asked))
+            diff = Poly(dict(next(iter(asked))))
+            fields = sorted(a[0] for a in diff.atoms())
+            if len(fields) != 2 or set(diff.t.values()) != {1, -1} or () in diff.t:
+                raise Broken("the decided comparison is not between two counters: %s" % diff.show())
+            # side steps: one more step in the same direction, nothing else changes
+            step_field = None
+            for D, post in side.items():
+                if cvec(post[DIR]) != D:
+                    return "inside a side (counters differ) the direction changes from %s to %s" % (D, cvec(post[DIR]))
+                if cvec(vsub(post[POS], base[POS])) != D:
+                    return "inside a side the position moves by %s, not by the direction %s" % (cvec(vsub(post[POS], base[POS])), D)
+                changed = {f: post[f] - sym[f] for f in scal if post[f] != sym[f]}
+                if len(changed) != 1 or list(changed.values())[0] != Poly.const(1) or list(changed)[0] not in fields:
+                    return "inside a side the counters change by %s (expected: the step counter + 1)" % {f: v.show() for f, v in changed.items()}
+                if step_field not in (None, list(changed)[0]):
+                    raise Broken("different step counters for different directions")
+                step_field = list(changed)[0]
+            ring_field = [f for f in fields if f != step_field][0]
+            # corners: rotate, restart the step counter at 1, possibly open the next ring
+            R, delta, opens = {}, {}, []
+            for D, post in corner.items():
+                D2 = cvec(post[DIR])
+                if D2 not in DIAGONALS:
+                    return "at a corner the direction %s becomes %s, not a diagonal" % (D, D2)
+                R[D] = D2
+                dv = cvec(vsub(post[POS], base[POS]))
+                if dv is None:
+                    return "at a corner the position does not move by a constant"
+                delta[D] = dv
+                if post[step_field] != Poly.const(1):
+                    return "at a corner the step counter becomes %s, not 1" % post[step_field].show()
+                others = {f: post[f] - sym[f] for f in scal if f != step_field and post[f] != sym[f]}
+                if others:
+                    if set(others) != {ring_field} or others[ring_field] != Poly.const(1):
+                        return "at a corner the counters change by %s" % {f: v.show() for f, v in others.items()}
+                    opens.append(D)
+            # the four directions form one cycle
+            cyc = [DIAGONALS[0]]
+            while R[cyc[-1]] not in cyc:
+                cyc.append(R[cyc[-1]])
+            if len(cyc) != 4 or R[cyc[-1]] != cyc[0]:
+                return "the direction is not rotated through all four diagonals (%s)" % R
+            if len(opens) != 1:
+                return "the ring counter is increased at %d of the four corners, expected exactly one" % len(opens)
+            pre = opens[0]
+            special = R[pre]
+            for D in DIAGONALS:
+                want = R[D] if D != pre else None
+                if want is not None and delta[D] != want:
+                    return "at the corner leaving direction %s the position moves by %s, not by the new direction %s" % (D, delta[D], want)
+            extra = (delta[pre][0] - special[0], delta[pre][1] - special[1])
+            if extra not in AXES:
+                return "opening a ring displaces the position by %s before the first step; a unit step along an axis is needed to reach the next ring's corner" % (extra,)
+            # geometry: from the corner c0 = extra (times the ring number) the four sides lead from corner to adjacent corner and close up
+            corners = [extra]
+            D = special
+            for _ in range(4):
+                c = corners[-1]
+                corners.append((c[0] + D[0], c[1] + D[1]))
+                D = R[D]
+            if corners[4] != corners[0] or set(corners[:4]) != AXES:
+                return ("the four sides do not run along the diamond: corners reached %s (expected the four axis unit vectors, closing up)" % corners)
+            # initial state: counters equal (first increment is a corner) and the first corner opens ring 1
+            if init[step_field] != init[ring_field]:
+                return "the iterator starts with step counter %s and ring counter %s: the first increment is not a corner" % (init[step_field].show(), init[ring_field].show())
+            if init[ring_field] != Poly.const(0):
+                return "the ring counter starts at %s, not 0" % init[ring_field].show()
+            if cvec(init[DIR]) != pre:
+                return "the initial direction %s does not lead into the ring-opening corner (expected %s)" % (cvec(init[DIR]), pre)
+            # begin / end of the range
+            rb, re_ = member("spiral_range::begin"), member("spiral_range::end")
+            rctor = member("spiral_range::spiral_range", "ctor")
+            DST = Poly.atom(("dist",))
+            mr = K.Machine(u, {}, params={rctor["params"][0]["id"]: K.vec(SX, SY), rctor["params"][1]["id"]: DST})
+            rstate = {i["field"]: mr.val(i["init"]) for i in rctor.get("inits", []) if i.get("field") and i.get("init") is not None}
+            for fn_, want_pos, what in ((rb, K.vec(SX, SY), "begin()"),
+                                        (re_, K.vec(SX + (DST + 1) * extra[0] + special[0], SY + (DST + 1) * extra[1] + special[1]), "end()")):
+                v = K.Machine(u, rstate).run(fn_.get("body"))
+                if not (isinstance(v, dict) and v.get("__class__", "").endswith("spiral_iterator") and len(v["args"]) == 2):
+                    raise Broken("%s does not construct a spiral iterator" % what)
+                if v["args"][0] != want_pos:
+                    got = v["args"][0]
+                    return "%s is the iterator at (%s, %s); the walk needs (%s, %s)%s" % (
+                        what, got[1][0].show(), got[1][1].show(), want_pos[1][0].show(), want_pos[1][1].show(),
+                        " (the first point of ring dist + 1)" if what == "end()" else "")
+                if v["args"][1] != DST:
+                    return "%s passes %s as the distance" % (what, v["args"][1].show())
+            # equal compares positions
+            eqf = member("spiral_iterator::equal")
+            OX, OY = Poly.atom(("ox",)), Poly.atom(("oy",))
+            other = {f: Poly.atom(("o_" + f,)) for f in scal}
+            other[POS] = K.vec(OX, OY)
+            other[DIR] = base[DIR]
+            seen = set()
+
+            def assume_eq(d):
+                seen.add(frozenset(a[0] for a in d.atoms()))
+                return True
+            r = K.Machine(u, base, params={eqf["params"][0]["id"]: other}, assume=assume_eq).run(eqf.get("body"))
+            if r != ("bool", True) or seen != {frozenset({"px", "ox"}), frozenset({"py", "oy"})}:
+                return "equal does not compare exactly the two positions (it compares %s)" % sorted(sorted(x) for x in seen)
+            return None
+        try:
+            why = analyse()
+        except (Broken, K.Unsupported, KeyError) as e:
+            rep.broken("C18 SPIRAL %s: %s" % (key, e))
+            continue
+        if why:
+            rep.fail("SPIRAL", key, F.primary_site(inc), F.describe(inc), why)
+        else:
+            for part in ("side step", "corner step", "direction cycle and ring opening", "diamond geometry", "begin / end / dereference"):
+                rep.ok("SPIRAL", key + "|" + part, F.primary_site(inc), F.describe(inc))
+
+
 def rule_witness(rep):
     rep.rule("W", "must-compile witnesses: integer ranges over plain, narrow and strong-typedef integers, enum ranges", floor=7)
     cd = PL.cache_dir()
@@ -813,6 +1010,8 @@ def main(rep, tier, only):
         rule_neigh(rep, db, cfg)
     if only in (None, "ITER"):
         rule_iter(rep, db, cfg)
+    if only in (None, "SPIRAL"):
+        rule_spiral(rep, db)
     rep.explanation = (
         "Path summaries of the range / iterator members by abstract interpretation (engine S) with the wrapped values opaque; arithmetic "
         "compared as polynomials over named positions (engine P). The inverted-range clamp is decided under every weak order of (begin, end); "
